@@ -18,8 +18,10 @@ package checker
 //@   ensures[collections-balanced] len(v.collections) == old(len(v.collections))
 //@   ensures[expect-kept] v.expect == old(v.expect)
 
-//@ func checker.dereference
+//@ func checker.dereference returns r
 //@   pure
+//@   ensures[nil] t == nil ==> r == nil
+//@   ensures[non-pointer] t != nil && kind(t) != 22 ==> r == t
 
 //@ func checker.visitor.ClosureNode
 //@   assigns *
@@ -84,3 +86,10 @@ package checker
 //@   loop 0 invariant[none-direct] i >= 0 && (ntype != nil && kind(ntype) == 25 ==> forall(k, 0, i, fname(ntype, k) != name))
 //@   loop 1 modifies nothing
 //@   ensures[direct-first] ntype != nil && kind(ntype) == 25 ==> forall(k, 0, numfield(ntype), fname(ntype, k) == name && forall(j, 0, k, fname(ntype, j) != name) ==> ok && t == ftype(ntype, k))
+
+// call checking runs outside any recover (C04)
+//@ func checker.visitor.FunctionNode returns t
+//@   property C04
+//@   mode nopanic
+//@   assigns *
+//@   requires v != nil && node != nil
